@@ -28,12 +28,22 @@ Fixpoint triples_of (g : list Z) (fuel : nat) : list (Z * raw) :=
            end
   end.
 
-(* 301: [fsize; complex] | payload | sig ... -> Frame.decode *)
+(* The property observes the decode result as a set of (name, value) entries (observe_at: set(Frame.decode(..).keys()));
+   the order of the dict is not constrained.  The answer of 301 is therefore given in canonical form: entries sorted by
+   name (names are unique in every generated frame); the harness sorts the implementation's answer the same way. *)
+Fixpoint insert_entry (e : list Z) (l : io) : io :=
+  match l with
+  | [] => [e]
+  | x :: r => if nthz e 0 <=? nthz x 0 then e :: l else x :: insert_entry e r
+  end.
+Definition sort_entries (l : io) : io := fold_right insert_entry [] l.
+
+(* 301: [fsize; complex] | payload | sig ... -> Frame.decode (entries in canonical order) *)
 Definition run_301 (h d : list Z) (sgs : io) : io :=
   match frame_decode (mkFrame (nthz h 0) (zb (nthz h 1)) (map msig_of sgs)) d with
   | DLengthError => [[0]]
   | DConvError => [[1]]
-  | DOk vs => [2] :: map named_raw vs
+  | DOk vs => [2] :: sort_entries (map named_raw vs)
   | DFloatSelector => [[3]]
   | DOutOfFuel => [[4]]
   | DKeyError => [[5]]
